@@ -184,14 +184,17 @@ pub fn seqno_counters(tree: &Tree) -> (SeqNo, SeqNo) {
 // ---------------------------------------------------------------------------
 // Clock seam
 
-static NOW_OVERRIDE: std::sync::Mutex<Option<std::time::Duration>> = std::sync::Mutex::new(None);
+thread_local! {
+    static NOW_OVERRIDE: std::cell::Cell<Option<std::time::Duration>> =
+        const { std::cell::Cell::new(None) };
+}
 
-/// Overrides (or restores, with `None`) the wall clock the crate reads.
+/// Overrides (or restores, with `None`) the wall clock the crate reads on the calling thread.
 pub fn set_now(value: Option<std::time::Duration>) {
-    *NOW_OVERRIDE.lock().expect("lock is poisoned") = value;
+    NOW_OVERRIDE.with(|c| c.set(value));
 }
 
 #[must_use]
 pub fn now_override() -> Option<std::time::Duration> {
-    *NOW_OVERRIDE.lock().expect("lock is poisoned")
+    NOW_OVERRIDE.with(std::cell::Cell::get)
 }
